@@ -207,9 +207,10 @@ func checkEncodings(t *rapid.T, h *header.ExtendedHeader, acc0 bool, err0 error,
 }
 
 // checkMsgIDPair: the message id depends only on the block the commit is for. Only stated for
-// pairs whose commits are well-formed (otherwise MsgID is the hash of the whole message).
+// pairs whose commits cometbft's decoder accepts (otherwise MsgID is by design the hash of the
+// whole message).
 func checkMsgIDPair(t *rapid.T, a, b *header.ExtendedHeader, what string) string {
-	if a.Commit.ValidateBasic() != nil || b.Commit.ValidateBasic() != nil {
+	if !c16CommitDecodable(a.Commit) || !c16CommitDecodable(b.Commit) {
 		return ""
 	}
 	ba, errA := c16EncodeBin(a)
@@ -236,6 +237,16 @@ func checkMsgIDPair(t *rapid.T, a, b *header.ExtendedHeader, what string) string
 		return "msgid=different-block"
 	}
 	return "" // same hash, different part-set header: nothing stated
+}
+
+// c16CommitDecodable: cometbft's own commit decoder accepts the commit (for height 0 this is
+// stricter than Commit.ValidateBasic, which then skips the per-signature checks).
+func c16CommitDecodable(c *core.Commit) bool {
+	err, pv := c16Guard(func() error {
+		_, e := core.CommitFromProto(c.ToProto())
+		return e
+	})
+	return err == nil && pv == nil
 }
 
 func c16RawProto(r header.RawHeader) []byte {
